@@ -109,7 +109,8 @@ func deviations(r *rand.Rand, ver version.Version) []deviation {
 				sel[i] = randCase(r, sel[i])
 			}
 		}
-		sel2 := sel; sel = sel2
+		sel2 := sel
+		sel = sel2
 		switch r.Intn(3) {
 		case 0:
 			add("cc "+strings.Join(sel, ","), func(sc *scenario) { sc.rawResp["Cache-Control"] = []string{strings.Join(sel, ", ")} }, nil)
@@ -128,7 +129,9 @@ func deviations(r *rand.Rand, ver version.Version) []deviation {
 	}
 	for _, v := range []struct{ n, u string }{{"vurl other host", "https://other.example/v"}, {"vurl http", "http://example.com/v"},
 		{"vurl other port", "https://example.com:8443/v"}, {"vurl :443", "https://example.com:443/v"}, {"vurl upper host", "https://EXAMPLE.com/v"},
-		{"vurl other path", "https://example.com/a/b/c?d"}, {"vurl subdomain", "https://www.example.com/v"}} {
+		{"vurl other path", "https://example.com/a/b/c?d"}, {"vurl subdomain", "https://www.example.com/v"},
+		// relative references: a validity URL has an origin only if it is absolute
+		{"vurl relative path", "/v"}, {"vurl relative", "v"}, {"vurl empty", ""}, {"vurl query only", "?x"}, {"vurl scheme-relative", "//example.com/v"}} {
 		v := v
 		add(v.n, func(sc *scenario) { sc.sp.vURL = v.u }, nil)
 	}
@@ -342,7 +345,8 @@ func sxgScn(args []string) error {
 		}
 		sp.vURL = map[string]string{"same": "https://example.com/v", "otherhost": "https://other.example/v", "http": "http://example.com/v",
 			"otherport": "https://example.com:8443/v", "p443": "https://example.com:443/v", "upperhost": "https://EXAMPLE.com/v",
-			"otherpath": "https://example.com/a/b/c?d=e", "subdomain": "https://www.example.com/v"}[s.Vurl]
+			"otherpath": "https://example.com/a/b/c?d=e", "subdomain": "https://www.example.com/v",
+			"relpath": "/v", "empty": "", "schemerel": "//example.com/v"}[s.Vurl]
 		if !s.Ct {
 			sp.resph.Del("Content-Type")
 		}
